@@ -563,5 +563,38 @@ def run(case):
                             cp = np.array([0.1, 0.2, 0.3])
                             gotm = fem.tools.moment(field, rr, b, centerpoint=cp)
                             c.close(f"mixed={mixed}/axis={a}/{side_}/{form}/moment", "boundary moment = sum of (x - c) x f over the boundary's points", gotm, np.cross(x[m] - cp, fr[m]).sum(0), scale=max(np.abs(fr).max(), 1e-12))
+        # fields whose number of components differs from the mesh dimension (scalar fields, three components on a plane mesh,
+        # two on a 3D mesh): one row of the force table per mesh point, field[0].dim columns
+        from scipy import sparse as _sp
+
+        for fdim in (1, 2, 3):
+            tw = zoo.make(mk, "block", seed)
+            if mk in ("hexahedron", "quad", "tetra"):
+                tw = zoo.renumber(tw, seed)
+            mesh = zoo.make(mk, "renum" if mk in ("hexahedron", "quad", "tetra") else "distorted", seed)
+            if fdim == mesh.dim:
+                continue
+            region = zoo.region(mk, mesh)
+            for extra in (False, True):  # (a second scalar field behind the first one)
+                fields = [fem.Field(region, dim=fdim)] + ([fem.Field(region, dim=1)] if extra else [])
+                fc_ = fem.FieldContainer(fields)
+                n_ = int(sum(fc_.fieldsizes))
+                vec = zoo.offarr(seed, 1950 + fdim, (n_,))
+                fr = vec[: fc_.fieldsizes[0]].reshape(-1, fdim)
+                for a in range(mesh.dim):
+                    m = np.isclose(tw.points[:, a], tw.points[:, a].max())
+                    b = fem.Boundary(fc_[0], mask=m)
+                    for form, rr in (("dense-1d", vec), ("dense-col", vec.reshape(-1, 1)), ("sparse", _sp.csr_matrix(vec.reshape(-1, 1)))):
+                        lab = f"field-dim={fdim}/mesh-dim={mesh.dim}/extra={extra}/axis={a}/{form}"
+                        c.trans += 1
+                        try:
+                            got = fem.tools.force(fc_, rr, b)
+                        except Exception as ex:  # noqa
+                            c.bad(lab + "/exception", "tools.force raised for a field whose component count differs from the mesh dimension", repr(ex)[:160], "a force of field-dim components")
+                            continue
+                        if np.shape(got) != (fdim,):
+                            c.bad(lab + "/shape", "boundary force has one entry per field component", np.shape(got), (fdim,))
+                            continue
+                        c.close(lab + "/force", "boundary force = sum of nodal forces over the boundary's points (one column per FIELD component)", got, fr[m].sum(0), scale=np.abs(fr).max())
         return c.result(dict(case=case["key"]))
     raise ValueError(op)
